@@ -1423,7 +1423,7 @@ func (s *Serf) handleQueryResponse(resp *messageQueryResponse) {
 	// Process each type of response
 	if resp.Ack() {
 		// Exit early if this is a duplicate ack
-		if _, ok := query.acks[resp.From]; ok {
+		if query.acked(resp.From) {
 			metrics.IncrCounterWithLabels([]string{"serf", "query_duplicate_acks"}, 1, s.metricLabels)
 			return
 		}
@@ -1435,7 +1435,7 @@ func (s *Serf) handleQueryResponse(resp *messageQueryResponse) {
 		}
 	} else {
 		// Exit early if this is a duplicate response
-		if _, ok := query.responses[resp.From]; ok {
+		if query.responded(resp.From) {
 			metrics.IncrCounterWithLabels([]string{"serf", "query_duplicate_responses"}, 1, s.metricLabels)
 			return
 		}
